@@ -177,7 +177,8 @@ _EXTENSION = seq(_SINGLETON, plus(seq("-", rep(ALNUM, 2, 8))))
 _PRIVATEUSE = seq("[xX]", plus(seq("-", rep(ALNUM, 1, 8))))
 RFC5646_LANGTAG = seq(_LANGUAGE, opt(seq("-", _SCRIPT)), opt(seq("-", _REGION)), star(seq("-", _VARIANT)),
                       star(seq("-", _EXTENSION)), opt(seq("-", _PRIVATEUSE)))
-RFC5646 = alt(RFC5646_LANGTAG, _PRIVATEUSE)
+_GRANDFATHERED = "(?i-u:en-GB-oed|i-ami|i-bnn|i-default|i-enochian|i-hak|i-klingon|i-lux|i-mingo|i-navajo|i-pwn|i-tao|i-tay|i-tsu|sgn-BE-FR|sgn-BE-NL|sgn-CH-DE|art-lojban|cel-gaulish|no-bok|no-nyn|zh-guoyu|zh-hakka|zh-min|zh-min-nan|zh-xiang)"
+RFC5646 = alt(RFC5646_LANGTAG, _PRIVATEUSE, _GRANDFATHERED)
 
 # ------------------------------------------------------------------ back-end token models
 
